@@ -628,7 +628,7 @@ func registerSync() {
 		body := &NativeFunc{name: "wg.Go", fn: func(in *Interp, _ []value) value {
 			in.callValue(f)
 			w.n--
-				return nil
+			return nil
 		}}
 		in.spawnNamed(fr, fr.callpos, body, nil, nil, "", true)
 		return nil
@@ -974,7 +974,7 @@ func ctxMethod(c *EngCtx, meth *types.Func) value {
 		}}
 	case "Err":
 		return &NativeFunc{name: "ctx.Err", fn: func(in *Interp, a []value) value {
-				for x := c; x != nil; x = x.parent {
+			for x := c; x != nil; x = x.parent {
 				if x.err != nil {
 					return x.err
 				}
@@ -1059,7 +1059,7 @@ func registerContext() {
 	cancelFunc := func(in *Interp, c *EngCtx) value {
 		return &NativeFunc{name: "cancel", fn: func(in *Interp, a []value) value {
 			in.ctxCancel(c, in.ctxGlobal("Canceled"))
-				return nil
+			return nil
 		}}
 	}
 	I["context.WithCancel"] = func(in *Interp, fr *frame, fn *ssa.Function, a []value) value {
@@ -1081,7 +1081,7 @@ func registerContext() {
 		cf := &NativeFunc{name: "cancel", fn: func(in *Interp, a []value) value {
 			t.active = false
 			in.ctxCancel(c, in.ctxGlobal("Canceled"))
-				return nil
+			return nil
 		}}
 		return tuple{in.ctxValue(c), cf}
 	}
